@@ -319,3 +319,19 @@ _reg(
     "DESIGN.md 3/C07",
     "Exploration over placements of function boundaries and pairs of call sites (same/different instance, weights, static fields, shapes, order).",
 )
+
+_reg(
+    "C10",
+    "exploration",
+    "cases = for the first testcase (thorough: three) of every registered component with float input_shapes, T(f) for T in {vmap over a new leading "
+    "axis, vmap over a trailing axis, vmap of the first argument only, jit, three nested jits, grad of sum(f), jvp, vjp, checkpoint, vmap of grad, "
+    "jit of vmap} (quick: vmap0, jit3, grad + one rotating) + 27 hand-written programs (custom_jvp / custom_vjp with deliberately non-standard "
+    "rules under grad/jvp/vmap/jit/scan, remat, hessian diagonal, jacfwd/jacrev, vmap in_axes/out_axes variants, vmap of cond/fori/scan, grads "
+    "through where/clip/concatenate/take/cumsum). Whether T(f) is defined is decided by running it in plain JAX first. Outcomes: ORT(to_onnx(T(f))) "
+    "agrees with T(f)(x); explicit NotImplementedError (acceptable); any other exception while f alone exports and JAX traces T(f) = internal "
+    "error (violation). evaluations = executions compared; non-trivial = (program, T) that agreed or was explicitly rejected; distinct = (program, T).",
+    (600, 400, 5000, 3500),
+    "differential runtime monitor over transformations: ORT(to_onnx(T(f))) vs T(f)(x) in eager JAX",
+    "DESIGN.md 3/C10",
+    "Exploration over every registered float component x transformations; the batching / differentiation rules of the substitute primitives are exercised through the real export.",
+)
